@@ -1516,7 +1516,8 @@ impl StorageEngine {
                 _ => return Err(StorageError::WrongType.into()),
             }
         } else {
-            return Ok(Vec::new());
+            // a missing key is the empty set; the remaining keys are still type-checked
+            HashSet::new()
         };
         drop(shard_guard); // Release lock early
         
@@ -1536,7 +1537,8 @@ impl StorageEngine {
                     _ => return Err(StorageError::WrongType.into()),
                 }
             } else {
-                return Ok(Vec::new());
+                // a missing key empties the intersection; the remaining keys are still type-checked
+                result.clear();
             }
         }
         
@@ -1560,7 +1562,8 @@ impl StorageEngine {
                 _ => return Err(StorageError::WrongType.into()),
             }
         } else {
-            return Ok(Vec::new());
+            // a missing key is the empty set; the remaining keys are still type-checked
+            HashSet::new()
         };
         drop(shard_guard); // Release lock early
         
